@@ -17,6 +17,22 @@ func vC14Bucket(unmerged bool) *vBucket {
 	if err := w.Commit(vCtx); err != nil {
 		panic(err)
 	}
+	if vC14History {
+		// two more versions: a row comes and goes, so that a vacuum takes the
+		// tree back to the content (and the node objects) of the first version
+		if err := vIns(w, 300, int64(6), int64(60), nil); err != nil {
+			panic(err)
+		}
+		if err := w.Commit(vCtx); err != nil {
+			panic(err)
+		}
+		if err := w.Delete(vAt(400), int64(6)); err != nil {
+			panic(err)
+		}
+		if err := w.Commit(vCtx); err != nil {
+			panic(err)
+		}
+	}
 	if unmerged {
 		ob := vNewBucket()
 		o := vMustOpen(ob.client(8), vTableOpts{bf: 2}, 11)
@@ -129,12 +145,14 @@ func vC14Run(bkt *vBucket, scenario int) ([]vRow, error, int64) {
 }
 
 var vC14Handle *VirtualTable
+var vC14History bool
 var vC14CommitFailed bool
 
 func VerifH_C14_faults() {
 	vC14Handle = nil
 	scenario := symChoice("scenario", 8)
 	unmerged := symChoice("unmerged", 2) == 1
+	vC14History = scenario == 4 && symChoice("history", 2) == 1
 	// reference: fault-free
 	ref := vC14Bucket(unmerged)
 	r0 := ref.reqs
